@@ -333,6 +333,7 @@ pub fn c06_cfg(rng: &mut Rng) -> GenCfg {
             examples_bias: 5,
             shadow_bias: 3,
             res_range: (60, 110),
+            odd_spellings: false,
         };
     }
     GenCfg {
@@ -343,6 +344,7 @@ pub fn c06_cfg(rng: &mut Rng) -> GenCfg {
         examples_bias: 8,
         shadow_bias: 3,
         res_range: (1, 3),
+        odd_spellings: rng.chance(1, 4),
     }
 }
 
